@@ -4,11 +4,11 @@ import (
 	"encoding/json"
 	"flag"
 	"fmt"
-	"go/types"
 	"os"
 	"path/filepath"
 	"sort"
 	"strings"
+	"sync"
 	"time"
 
 	"golang.org/x/tools/go/packages"
@@ -18,52 +18,9 @@ import (
 	"gosym/sx"
 )
 
-// Job is one harness (or one shard of it) to explore.
-type Job struct {
-	Pkg      string `json:"pkg"`
-	Fn       string `json:"fn"`
-	ShardI   int    `json:"shard_i"`
-	ShardN   int    `json:"shard_n"`
-	MaxPaths int    `json:"max_paths"`
-	QTimeout int    `json:"qtimeout_ms"`
-	Pin      *PinFile `json:"pin,omitempty"`
-	DeadlineS int   `json:"deadline_s"`
-}
-
-type PinFile struct {
-	Values  map[string]uint64 `json:"values"`
-	Chooses []int             `json:"chooses"`
-}
-
-// Result is what a worker reports per job.
-type Result struct {
-	Job        Job                        `json:"job"`
-	Paths      int                        `json:"paths"`
-	Completed  int                        `json:"completed"`
-	Nontrivial int                        `json:"nontrivial"`
-	Decisions  int                        `json:"decisions"`
-	Queries    int                        `json:"queries"`
-	Sat        int                        `json:"sat"`
-	Unsat      int                        `json:"unsat"`
-	Unknown    int                        `json:"unknown"`
-	SolverS    float64                    `json:"solver_s"`
-	WallS      float64                    `json:"wall_s"`
-	Asserts    map[string]*sx.AssertStat  `json:"asserts"`
-	Covers     map[string]int             `json:"covers"`
-	Aborted    map[string]int             `json:"aborted"`
-	Violations []sx.Violation             `json:"violations"`
-	KnownHits  map[string]int             `json:"known_hits"`
-	Witnesses  []sx.Witness               `json:"witnesses"`
-	Funcs      []string                   `json:"funcs"`
-	Stubs      map[string]int             `json:"stubs"`
-	Replaced   []string                   `json:"replaced"`
-	PathLimit  bool                       `json:"path_limit"`
-	TimedOut   bool                       `json:"timed_out"`
-	IfConv     int                        `json:"if_converted"`
-	Error      string                     `json:"error,omitempty"`
-	LoadS      float64                    `json:"load_s"`
-	GoVersion  string                     `json:"go_version"`
-}
+type Job = sx.Job
+type PinFile = sx.PinFile
+type Result = sx.Result
 
 type loaded struct {
 	prog  *ssa.Program
@@ -142,80 +99,61 @@ func loadProgram(pkgDirs []string) (*loaded, error) {
 	return l, nil
 }
 
-func runJob(l *loaded, job Job, thorough bool, knownFor map[string][]string, verbose bool) Result {
-	res := Result{Job: job, LoadS: l.loadS, GoVersion: l.gover}
-	sp := l.pkgs[job.Pkg]
-	if sp == nil {
-		res.Error = "package not loaded: " + job.Pkg
-		return res
+// runJobs explores the jobs on up to nw pool copies of the interpreter in parallel.
+func runJobs(l *loaded, jobs []Job, nw int, progress func(Result)) []Result {
+	if nw > len(pool) {
+		nw = len(pool)
 	}
-	fn := sp.Func(job.Fn)
-	if fn == nil {
-		res.Error = "harness function not found: " + job.Fn
-		return res
+	if nw > len(jobs) {
+		nw = len(jobs)
 	}
-	solver, err := sx.NewSolver("z3-new", "-in")
-	if err != nil {
-		res.Error = err.Error()
-		return res
+	if nw < 1 {
+		nw = 1
 	}
-	defer solver.Close()
-	solver2, err := sx.NewSolver("z3-new", "-in")
-	if err != nil {
-		res.Error = err.Error()
-		return res
+	results := make([]Result, len(jobs))
+	next := make(chan int, len(jobs))
+	for i := range jobs {
+		next <- i
 	}
-	defer solver2.Close()
-	x := sx.NewExplorer(solver, solver2)
-	x.Verbose = verbose
-	x.Thorough = thorough
-	x.KnownFor = knownFor
-	if job.MaxPaths > 0 {
-		x.MaxPaths = job.MaxPaths
-	}
-	if job.QTimeout > 0 {
-		x.QTimeoutMs = job.QTimeout
-	}
-	if job.ShardN > 1 {
-		x.ShardI, x.ShardN = job.ShardI, job.ShardN
-	}
-	if job.DeadlineS > 0 {
-		x.Deadline = time.Now().Add(time.Duration(job.DeadlineS) * time.Second)
-	}
-	if job.Pin != nil {
-		x.Pin = &sx.Pin{Values: job.Pin.Values, Chooses: job.Pin.Chooses}
-		x.WitnessK = 0
-	}
-	t0 := time.Now()
-	func() {
-		defer func() {
-			if r := recover(); r != nil {
-				res.Error = fmt.Sprintf("engine panic: %v", r)
+	close(next)
+	var wg sync.WaitGroup
+	var mu sync.Mutex
+	for w := 0; w < nw; w++ {
+		wg.Add(1)
+		go func(w int) {
+			defer wg.Done()
+			for i := range next {
+				job := jobs[i]
+				res := Result{Job: job}
+				sp := l.pkgs[job.Pkg]
+				var fn *ssa.Function
+				if sp != nil {
+					fn = sp.Func(job.Fn)
+				}
+				switch {
+				case sp == nil:
+					res.Error = "package not loaded: " + job.Pkg
+				case fn == nil:
+					res.Error = "harness function not found: " + job.Fn
+				default:
+					jb, _ := json.Marshal(job)
+					out := pool[w](l.prog, fn, jb)
+					if err := json.Unmarshal(out, &res); err != nil {
+						res = Result{Job: job, Error: "result: " + err.Error()}
+					}
+				}
+				res.LoadS, res.GoVersion = l.loadS, l.gover
+				results[i] = res
+				if progress != nil {
+					mu.Lock()
+					progress(res)
+					mu.Unlock()
+				}
 			}
-		}()
-		sx.RunHarness(l.prog, types.SizesFor("gc", "amd64"), fn, x)
-	}()
-	res.WallS = time.Since(t0).Seconds()
-	res.Paths, res.Completed, res.Nontrivial, res.Decisions = x.Paths, x.Completed, x.NontrivialPaths, x.Decisions
-	res.Queries = solver.Queries + solver2.Queries
-	res.Sat, res.Unsat, res.Unknown = solver.Sat+solver2.Sat, solver.Unsat+solver2.Unsat, solver.Unknown+solver2.Unknown
-	res.SolverS = (solver.Time + solver2.Time).Seconds()
-	res.Asserts, res.Covers, res.Aborted, res.Violations, res.KnownHits = x.Asserts, x.Covers, x.Aborted, x.Violations, x.KnownHits
-	res.Witnesses = x.Witnesses
-	res.Funcs = x.TopFuncs(60)
-	res.Stubs = x.StubHits
-	for k := range x.Replaced {
-		res.Replaced = append(res.Replaced, k)
+		}(w)
 	}
-	sort.Strings(res.Replaced)
-	res.PathLimit, res.TimedOut, res.IfConv = x.PathLimit, x.TimedOut, x.IfConverted
-	for p, e := range sx.InitFailures {
-		if p == "time" {
-			continue
-		}
-		res.Aborted["init failure "+p+": "+firstLine(e)] += 0
-	}
-	return res
+	wg.Wait()
+	return results
 }
 
 func firstLine(s string) string {
@@ -236,6 +174,8 @@ func cmdRun(args []string) int {
 	verbose := fs.Bool("v", false, "verbose")
 	maxPaths := fs.Int("maxpaths", 0, "override path limit")
 	shard := fs.String("shard", "", "i/n")
+	workers := fs.Int("workers", 1, "parallel explorations (pool copies)")
+	shards := fs.Int("shards", 0, "split each harness into n shards (run in parallel with -workers)")
 	fs.Parse(args)
 
 	var jobs []Job
@@ -266,7 +206,15 @@ func cmdRun(args []string) int {
 					if *shard != "" {
 						fmt.Sscanf(*shard, "%d/%d", &j.ShardI, &j.ShardN)
 					}
-					jobs = append(jobs, j)
+					if *shards > 1 {
+						for k := 0; k < *shards; k++ {
+							jk := j
+							jk.ShardI, jk.ShardN = k, *shards
+							jobs = append(jobs, jk)
+						}
+					} else {
+						jobs = append(jobs, j)
+					}
 					found = true
 				}
 			}
@@ -292,14 +240,18 @@ func cmdRun(args []string) int {
 		for _, j := range jobs {
 			results = append(results, Result{Job: j, Error: "load: " + err.Error()})
 		}
+		fmt.Fprintln(os.Stderr, err)
 	} else {
-		for _, j := range jobs {
-			r := runJob(l, j, *tier == "thorough", known.labelMap(j.Fn), *verbose)
-			results = append(results, r)
+		for i := range jobs {
+			jobs[i].Thorough = *tier == "thorough"
+			jobs[i].Verbose = *verbose
+			jobs[i].KnownFor = known.labelMap(jobs[i].Fn)
+		}
+		results = runJobs(l, jobs, *workers, func(r Result) {
 			if *out == "" || *verbose {
 				printResult(r)
 			}
-		}
+		})
 	}
 	if *out != "" {
 		b, _ := json.Marshal(results)
